@@ -27,6 +27,8 @@ def gen_case(rng):
             break
     if rng.random() < 0.2:
         B = np.diag([rng.uniform(0.5, 3)] * 3)   # cubic-like
+    if rng.random() < 0.3:
+        B = B * rng.choice([1e-2, 3e-2, 1e2])      # a cell of hundreds of length units, or of a hundredth: UB carries the unit, the answer does not
     co = [rng.uniform(-2, 2) for _ in range(3)]
     zp = rng.choice(["none", "none", "a", "b", "c", "ab", "ac", "bc", "int"])
     if zp == "int":
@@ -34,6 +36,9 @@ def gen_case(rng):
     elif zp != "none":
         for ch in zp:
             co["abc".index(ch)] = 0.0
+    if rng.random() < 0.25:
+        t = rng.choice([1e-4, 1e-3, 1e3])          # the same plane written at another overall scale
+        co = [c * t for c in co]
     x = np.array([rng.uniform(-2, 2) for _ in range(3)])
     mode = rng.choice(["hit", "hit", "hit", "miss", "tangentish"])
     d = float(np.dot(co, x))
